@@ -80,7 +80,12 @@ func dequeStep(s []string, in linIn, out linOut) (bool, interface{}) {
 		if len(s) == 0 {
 			return out.Nil, s
 		}
-		if out.Nil || out.Bytes != strings.Join(s, "") {
+		j := strings.Join(s, "")
+		if j == "" {
+			// only empty chunks held: "nothing" comes out as nil or as an empty slice; all are taken
+			return out.Bytes == "", []string(nil)
+		}
+		if out.Nil || out.Bytes != j {
 			return false, s
 		}
 		return true, []string(nil)
@@ -145,6 +150,7 @@ type linHistory struct {
 	nils     int
 	// >= 2 put-backs outstanding at the same time; ... then taken by DequeueAll / Dequeue
 	twoOut, twoThenAll, twoThenDeq bool
+	emptyDeq                       bool // a Dequeue returned an empty chunk
 }
 
 // rawOp is what a client records per operation: no allocation and no conversion happens between
@@ -187,6 +193,7 @@ func runOneHistory(seed int64, maxOps int, parties *[2]party, yieldPm int) linHi
 	pDepth := 50 + r.pm()*3/10   // producer GetDepth per mille
 	cDepth := 50 + r.pm()*25/100 // consumer GetDepth per mille; the rest is Dequeue
 	jitter := uint64(1 + r.next()%64)
+	emptyPm := []int{0, 0, 100, 300}[r.next()%4]
 	q := util.NewQueue()
 	var clock atomic.Int64
 	var h linHistory
@@ -221,6 +228,10 @@ func runOneHistory(seed int64, maxOps int, parties *[2]party, yieldPm int) linHi
 		defer func() { raw[0] = ops }()
 		chunks := make([][]byte, n0)
 		for i := range chunks {
+			if rr.pm() < emptyPm {
+				chunks[i] = []byte{} // an empty chunk, as the read loop enqueues for a read of only CR / escapes
+				continue
+			}
 			chunks[i] = appendChunk(nil, seed, i, 4)
 		}
 		defer gone.Add(1)
@@ -329,6 +340,9 @@ func runOneHistory(seed int64, maxOps int, parties *[2]party, yieldPm int) linHi
 		case (x.op == opDeq || x.op == opAll) && x.out == nil:
 			h.nils++
 		case x.op == opDeq:
+			if len(x.out) == 0 {
+				h.emptyDeq = true
+			}
 			if nPut >= 2 {
 				h.twoThenDeq = true
 			}
@@ -427,6 +441,9 @@ func runLin(d Desc) mon.Result {
 			}
 			if h.requeues > 0 && h.nils > 0 && ov > 0 {
 				obs["lin_histories_nontrivial"]++
+			}
+			if h.emptyDeq {
+				obs["lin_histories_dequeue_returned_empty_chunk"]++
 			}
 			if h.twoOut {
 				obs["lin_histories_with_two_outstanding_putbacks"]++
